@@ -13,7 +13,8 @@ OBLIGATIONS = ["NiftyVerif.C06." + t for t in (
     "weight_spec", "integrate_eq_sum_weight", "mean_eq_integrate_div_volume", "var_eq_mean_sq_dev",
     "vdot_conj_linear", "vdot_partial_eq_sum", "total_volume_mul", "multifield_op_keywise", "multifield_norm",
     "domain_mismatch_rejected", "domain_mismatch_rejected_vdot", "total_volume_fibre", "mean_eq_weighted_average", "mean_weighted", "var_eq_weighted_variance",
-    "weight_spec_driver", "integrate_driver", "mean_driver", "var_driver", "vdot_driver")]
+    "weight_spec_driver", "integrate_driver", "mean_driver", "var_driver", "vdot_driver",
+    "mean_weighted_driver", "var_weighted_driver")]
 RULE = ("a case = DomainTuple(s) built with the repo's constructors (RGSpace dyadic distances, UnstructuredDomain, "
         "PowerSpace, DOFSpace, LMSpace, GLSpace, HPSpace; 0-3 sub-domains) + int/float/complex data (small integers / "
         "dyadic) + one public Field/MultiField method call with one `spaces` value (every subset of sub-domains is "
